@@ -5,6 +5,7 @@ import (
 	"bytes"
 	"fmt"
 	"net"
+	"os"
 	"reflect"
 	"testing"
 
@@ -20,7 +21,12 @@ import (
 	"verif/rfl"
 )
 
-func TestMain(m *testing.M)   { pbt.Main(m, "C08") }
+func TestMain(m *testing.M) {
+	if p := os.Getenv(coldHelperEnv); p != "" {
+		coldHelperMain(p) // re-executed by concurrent-first-decodes: never returns
+	}
+	pbt.Main(m, "C08")
+}
 func TestReplay(t *testing.T) { pbt.Replay(t) }
 
 type StreamCase struct {
